@@ -106,7 +106,8 @@ thread_local! {
     static C_BUDGET: Cell<u64> = const { Cell::new(u64::MAX) };
     static C_FLAG: Cell<*const AtomicU32> = const { Cell::new(std::ptr::null()) };
 }
-const BYTE_BUDGET: u64 = 6 << 30;
+/// cumulative bytes one guarded call may allocate (contains memory blow-ups; the parked thread keeps what it holds)
+const BYTE_BUDGET: u64 = 2 << 30;
 
 pub struct Counting;
 #[inline]
@@ -177,6 +178,7 @@ thread_local! {
     pub static T_MAXSTEPS: Cell<u64> = const { Cell::new(0) };
     pub static T_MAXFRAC_PPM: Cell<u64> = const { Cell::new(0) };
     pub static T_CALLS: Cell<u64> = const { Cell::new(0) };
+    pub static T_MAXBYTES: Cell<u64> = const { Cell::new(0) };
 }
 
 pub fn attach_shared(s: Arc<Shared>) {
@@ -227,8 +229,9 @@ pub fn install_panic_hook() {
 
 /// Default step budget for one library call on a graph with n nodes and m edges.
 pub fn budget(n: usize, m: usize) -> u64 {
+    // >= 100x the largest count observed on the unchanged tree (max_fraction_of_budget_ppm in every evidence file)
     let s = (n + m) as u64;
-    2_000_000 + 20_000 * s * s
+    80_000_000 + 1_000 * s * s
 }
 
 #[derive(Debug, Clone)]
@@ -250,6 +253,12 @@ pub fn call<R>(label: &str, budget: u64, f: impl FnOnce() -> R) -> Result<R, Pan
     let r = std::panic::catch_unwind(std::panic::AssertUnwindSafe(f));
     C_ARMED.with(|a| a.set(false));
     let n = C_COUNT.with(|c| c.get());
+    let bytes = C_BYTES.with(|c| c.get());
+    T_MAXBYTES.with(|s| {
+        if bytes > s.get() {
+            s.set(bytes)
+        }
+    });
     T_STEPS.with(|s| s.set(s.get() + n));
     T_CALLS.with(|s| s.set(s.get() + 1));
     T_MAXSTEPS.with(|s| {
